@@ -90,7 +90,7 @@ pub struct Scn {
     pub threads: usize,
     #[serde(default)]
     pub timeout_ms: Option<u64>,
-    /// "wildcard" | "list" | "none"
+    /// "wildcard" | "list" | "none" | "nested"
     pub cors: String,
     pub clients: Vec<Client>,
 }
@@ -274,6 +274,8 @@ pub fn build_app(threads: usize, timeout_ms: Option<u64>, cors: &str) -> (App<HS
     let cors_cfg = match cors {
         "wildcard" => Cors::wildcard(),
         "list" => Cors::new().with_origin("https://a.example").with_origin("https://b.example").with_method(Method::Get).with_method(Method::Post).with_header("X-Custom"),
+        // entries that are substrings of earlier entries (a de-duplication by substring would drop them)
+        "nested" => Cors::new().with_origin("http://localhost:3000").with_origin("http://localhost").with_method(Method::Get).with_method(Method::Post).with_method(Method::Put).with_header("Accept-Language").with_header("Accept").with_header("X-Auth-Token").with_header("X-Auth"),
         _ => Cors::new(),
     };
     let timeout_ms = timeout_ms.map(|t| t.max(100));
@@ -639,6 +641,7 @@ fn check_client_inner(rr: &mut RunResult, tag: &str, scn_timeout_ms: Option<u64>
                     let want: Vec<(&str, &str)> = match cors_kind {
                         "wildcard" => vec![("Access-Control-Allow-Origin", "*"), ("Access-Control-Allow-Headers", "*")],
                         "list" => vec![("Access-Control-Allow-Origin", "https://a.example, https://b.example"), ("Access-Control-Allow-Methods", "GET, POST"), ("Access-Control-Allow-Headers", "X-Custom")],
+                        "nested" => vec![("Access-Control-Allow-Origin", "http://localhost:3000, http://localhost"), ("Access-Control-Allow-Methods", "GET, POST, PUT"), ("Access-Control-Allow-Headers", "Accept-Language, Accept, X-Auth-Token, X-Auth")],
                         _ => vec![],
                     };
                     for (k, v) in want {
@@ -888,7 +891,7 @@ impl Prop for C01 {
         }
     }
     fn rule(&self) -> &'static str {
-        "One case = a generated application configuration (pool 1..4 threads, connection timeout none / 1..30 s, CORS wildcard/list/none) plus 1..4 (thorough 1..8) client scripts of 1..6 requests over 5 methods x 8 targets (bodies of 0, 7, 9, 20 000 and 150 000 bytes, an echo, a panicking handler, an unrouted path) x 2 versions x Connection variants x bodies 0..9000 bytes x malformed kinds x idle gaps, an explicit segmentation (cut offsets + inter-segment gap) of the client byte stream, lock-step or streamed pacing, an ending (close / half-close / wait / RST) and optional truncation of the last request, all under one seeded schedule and seeded network knobs (short reads/writes, default segmentation, tiny windows, latency). Distinct = distinct history shape: per client the sequence of (method, target kind, well-formedness, pacing, number of segments, statuses received, how the connection ended). Non-trivial = at least two requests on one connection or two overlapping connections, and at least one cut inside a request."
+        "One case = a generated application configuration (pool 1..4 threads, connection timeout none / 1..30 s, CORS wildcard / list / list whose entries are substrings of earlier ones / none) plus 1..4 (thorough 1..8) client scripts of 1..6 requests over 5 methods x 8 targets (bodies of 0, 7, 9, 20 000 and 150 000 bytes, an echo, a panicking handler, an unrouted path) x 2 versions x Connection variants x bodies 0..9000 bytes x malformed kinds x idle gaps, an explicit segmentation (cut offsets + inter-segment gap) of the client byte stream, lock-step or streamed pacing, an ending (close / half-close / wait / RST) and optional truncation of the last request, all under one seeded schedule and seeded network knobs (short reads/writes, default segmentation, tiny windows, latency). Distinct = distinct history shape: per client the sequence of (method, target kind, well-formedness, pacing, number of segments, statuses received, how the connection ended). Non-trivial = at least two requests on one connection or two overlapping connections, and at least one cut inside a request."
     }
     fn assumptions(&self) -> Vec<String> {
         vec![
@@ -924,7 +927,7 @@ impl Prop for C01 {
         // the server-side receive window always holds a whole client script (a real kernel buffer
         // does); slow readers are modelled on the client side (`window`)
         sim.rx_capacity = None;
-        let scn = Scn { sim, threads: rng.range(1, 4) as usize, timeout_ms, cors: ["wildcard", "list", "none"][rng.usize_below(3)].to_string(), clients };
+        let scn = Scn { sim, threads: rng.range(1, 4) as usize, timeout_ms, cors: ["wildcard", "list", "none", "nested"][rng.usize_below(4)].to_string(), clients };
         serde_json::to_value(scn).unwrap()
     }
 
